@@ -160,3 +160,180 @@ Example C17_ex_emsd_F11 :
   option_map (fun rows => option_map this (e_msd (hd (Build_erow 0 0 None 0) rows))) (emsd ex_ens 1 1 100 1)
   = Some (Some (15 # 2)%Q).
 Proof. vm_compute. reflexivity. Qed.
+
+(* ==== ROUTE T: the same statements about the functions GENERATED from the current
+   trackpy/motion.py by tools/py2coq_msd.py (Gen/msd.v; vocabulary Model/PyMsd.v:
+   numpy / pandas operations as named primitives, np.fft as the exact circular
+   autocorrelation of the zero-padded signal).  Proofs in Proofs/MSDGen.v.
+     frame_of_mrows pc detail rows   the pandas table whose rows are the model rows [rows]:
+                                     index = lag, index name 'lagt', columns <p>.., <p^2>.., msd, [N,] lagt
+     agrees view g m                 g = Ret (view b) when the model returns b;  g raises when the model raises
+   Python ints are Z (max_lagtime = Z.of_nat maxlag), pos_columns = the first ndim axes. ==== *)
+From TP Require Import Model.PyMsd Model.MSDGen Gen.msd Proofs.MSDGen.
+
+(* _msd_N as written (np.where over the vector of lag times) is the Qian weight of the model *)
+Theorem C17_gen_msd_N_equal_model : forall (N : nat) (ts : list nat),
+  py__msd_N (Z.of_nat N) (map Z.of_nat ts) = map (msd_N N) ts.
+Proof. exact gen_msd_N. Qed.
+Print Assumptions C17_gen_msd_N_equal_model.
+
+(* _msd_gaps (set_index / reindex / _msd_iter / DataFrame assembly) equals the model for EVERY table:
+   same rows, and it raises exactly when the model raises (empty table, duplicated frame) *)
+Theorem C17_gen_msd_gaps_equal_model : forall t mpp fps maxlag ndim detail,
+  agrees (frame_of_mrows (seq 0 ndim) detail)
+         (py__msd_gaps t mpp fps (Z.of_nat maxlag) detail (Some (seq 0 ndim)))
+         (msd_gaps t mpp fps maxlag ndim).
+Proof. exact gen_msd_gaps. Qed.
+Print Assumptions C17_gen_msd_gaps_equal_model.
+
+(* _msd_fft (reversed slices, cumulative sums, S1 - 2 S2 with S2 the circular autocorrelation
+   of the signal zero-padded to 2N) equals the model for every non-empty table *)
+Theorem C17_gen_msd_fft_equal_model : forall t mpp fps maxlag ndim detail, t <> [] -> (0 < ndim)%nat ->
+  py__msd_fft t mpp fps (Z.of_nat maxlag) detail (Some (seq 0 ndim))
+  = Ret (frame_of_mrows (seq 0 ndim) detail (msd_fft t mpp fps maxlag ndim)).
+Proof. exact gen_msd_fft. Qed.
+Print Assumptions C17_gen_msd_fft_equal_model.
+
+(* msd (stable argsort by frame, span + 1 == len dispatcher) equals the model for every table *)
+Theorem C17_gen_msd_equal_model : forall traj mpp fps maxlag ndim detail, (0 < ndim)%nat ->
+  agrees (frame_of_mrows (seq 0 ndim) detail)
+         (py_msd traj mpp fps (Z.of_nat maxlag) detail (Some (seq 0 ndim)))
+         (msd traj mpp fps maxlag ndim).
+Proof. exact gen_msd. Qed.
+Print Assumptions C17_gen_msd_equal_model.
+
+(* C17_msd_eq_def for the generated msd *)
+Theorem C17_gen_msd_eq_def : forall traj mpp fps maxlag ndim detail,
+  traj <> [] -> NoDup (map fst traj) -> (0 < ndim)%nat ->
+  exists rows, py_msd traj mpp fps (Z.of_nat maxlag) detail (Some (seq 0 ndim))
+               = Ret (frame_of_mrows (seq 0 ndim) detail rows) /\
+    map (fun r => (r_lag r, r_lagt r, r_msd r)) rows =
+    map (fun n => (n, nq n / fps, msd_def mpp ndim traj n)) (seq 1 (Nat.min maxlag (span traj))).
+Proof. exact gen_msd_eq_def. Qed.
+Print Assumptions C17_gen_msd_eq_def.
+
+(* C17_msd_columns for the generated msd *)
+Theorem C17_gen_msd_columns : forall traj mpp fps maxlag ndim detail,
+  traj <> [] -> NoDup (map fst traj) -> (0 < ndim)%nat ->
+  exists rows, py_msd traj mpp fps (Z.of_nat maxlag) detail (Some (seq 0 ndim))
+               = Ret (frame_of_mrows (seq 0 ndim) detail rows) /\
+    map r_lag rows = seq 1 (Nat.min maxlag (span traj)) /\
+    Forall (fun r =>
+      r_lagt r = nq (r_lag r) / fps /\
+      r_msd r = msd_def mpp ndim traj (r_lag r) /\
+      r_sq r = map (fun d => axis_sq_def mpp d traj (r_lag r)) (seq 0 ndim) /\
+      r_N r = N_eff traj (r_lag r)) rows.
+Proof. exact gen_msd_columns. Qed.
+Print Assumptions C17_gen_msd_columns.
+
+(* C17_nan_iff_no_pair for the generated msd *)
+Theorem C17_gen_nan_iff_no_pair : forall traj mpp fps maxlag ndim detail,
+  traj <> [] -> NoDup (map fst traj) -> (0 < ndim)%nat ->
+  exists rows, py_msd traj mpp fps (Z.of_nat maxlag) detail (Some (seq 0 ndim))
+               = Ret (frame_of_mrows (seq 0 ndim) detail rows) /\
+    forall r, In r rows -> (r_msd r = None <-> pairs (Z.of_nat (r_lag r)) traj = []).
+Proof. exact gen_msd_nan_iff_no_pair. Qed.
+Print Assumptions C17_gen_nan_iff_no_pair.
+
+(* C17_order_independent for the generated msd: the same table for any reordering of the rows *)
+Theorem C17_gen_order_independent : forall traj traj' mpp fps maxlag ndim detail,
+  traj <> [] -> NoDup (map fst traj) -> (0 < ndim)%nat -> Permutation traj traj' ->
+  py_msd traj mpp fps (Z.of_nat maxlag) detail (Some (seq 0 ndim))
+  = py_msd traj' mpp fps (Z.of_nat maxlag) detail (Some (seq 0 ndim)).
+Proof. exact gen_msd_order_independent. Qed.
+Print Assumptions C17_gen_order_independent.
+
+(* C17_gap_independent for the generated _msd_gaps / _msd_fft: on a sorted gap-free table both return
+   tables with the same lag, lagt, msd, <x^2> and N columns *)
+Theorem C17_gen_gap_independent : forall r0 t' mpp fps maxlag ndim detail,
+  StronglySorted (fun a b : row => (fst a <= fst b)%Z) (r0 :: t') ->
+  NoDup (map fst (r0 :: t')) -> (0 < ndim)%nat ->
+  (fst (last (r0 :: t') r0) - fst r0 + 1 = Z.of_nat (length (r0 :: t')))%Z ->
+  exists rows_g rows_f,
+    py__msd_gaps (r0 :: t') mpp fps (Z.of_nat maxlag) detail (Some (seq 0 ndim)) = Ret (frame_of_mrows (seq 0 ndim) detail rows_g) /\
+    py__msd_fft (r0 :: t') mpp fps (Z.of_nat maxlag) detail (Some (seq 0 ndim)) = Ret (frame_of_mrows (seq 0 ndim) detail rows_f) /\
+    map (fun r => (r_lag r, r_lagt r, r_msd r, r_sq r, r_N r)) rows_g =
+    map (fun r => (r_lag r, r_lagt r, r_msd r, r_sq r, r_N r)) rows_f.
+Proof. exact gen_paths_agree. Qed.
+Print Assumptions C17_gen_gap_independent.
+
+(* imsd / emsd, first half: the loop `for pid, ptraj in traj.reset_index(drop=True).groupby('particle')`
+   with its msd(...) calls (detail=False in imsd, True in emsd) collects exactly the model's per-particle
+   tables, in the model's order, and raises exactly when the model's per_particle does; what follows the
+   loop is the pandas pipeline imsd_tail / emsd_tail (Model/MSDGen.v: the generated text after the loop)
+   applied to them.  (Named _partial: they are one half; the other half and the full statements follow.) *)
+Theorem C17_gen_imsd_partial : forall tr mpp fps ml ndim, (0 < ndim)%nat ->
+  match per_particle tr mpp fps ml ndim with
+  | Some tabs => py_imsd tr mpp fps (Z.of_nat ml) LMsd (Some (seq 0 ndim))
+                 = imsd_tail fps LMsd (tabs_ids tabs) (tabs_frames (seq 0 ndim) false tabs)
+  | None => exists e, py_imsd tr mpp fps (Z.of_nat ml) LMsd (Some (seq 0 ndim)) = Raise e
+  end.
+Proof. exact gen_imsd_partial. Qed.
+Print Assumptions C17_gen_imsd_partial.
+
+Theorem C17_gen_emsd_partial : forall tr mpp fps ml ndim detail, (0 < ndim)%nat ->
+  match per_particle tr mpp fps ml ndim with
+  | Some tabs => py_emsd tr mpp fps (Z.of_nat ml) detail (Some (seq 0 ndim))
+                 = emsd_tail fps detail (tabs_ids tabs) (tabs_frames (seq 0 ndim) true tabs)
+  | None => exists e, py_emsd tr mpp fps (Z.of_nat ml) detail (Some (seq 0 ndim)) = Raise e
+  end.
+Proof. exact gen_emsd_partial. Qed.
+Print Assumptions C17_gen_emsd_partial.
+
+(* imsd / emsd, second half and the full statements: the pandas pipeline after the loop -- concat with keys,
+   swaplevel + [statistic] + unstack (imsd); N.where(msd.notna()), mul(N, axis=0), groupby(level=1).mean(),
+   div by the mean weight, groupby(level=1).sum() (emsd) -- assembles exactly the model's tables.
+     widef_of_irows (cols, rows)   the imsd table: float index lag/fps named 'lag time [s]', one column per particle
+     emsd_frame_agrees f rows      index of f = the lags of rows; columns lagt, msd, N of f = those of rows *)
+Theorem C17_gen_imsd_equal_model : forall tr mpp fps ml ndim, (0 < ndim)%nat ->
+  agrees widef_of_irows (py_imsd tr mpp fps (Z.of_nat ml) LMsd (Some (seq 0 ndim))) (imsd tr mpp fps ml ndim).
+Proof. exact gen_imsd. Qed.
+Print Assumptions C17_gen_imsd_equal_model.
+
+Theorem C17_gen_emsd_equal_model : forall tr mpp fps ml ndim, (0 < ndim)%nat ->
+  match emsd tr mpp fps ml ndim with
+  | Some rows => exists f, py_emsd tr mpp fps (Z.of_nat ml) true (Some (seq 0 ndim)) = Ret (EmsdFrame f) /\
+                           emsd_frame_agrees f rows
+  | None => exists e, py_emsd tr mpp fps (Z.of_nat ml) true (Some (seq 0 ndim)) = Raise e
+  end.
+Proof. exact gen_emsd. Qed.
+Print Assumptions C17_gen_emsd_equal_model.
+
+(* C17_imsd for the generated imsd *)
+Theorem C17_gen_imsd : forall tr mpp fps maxlag ndim,
+  tr <> [] -> (forall p, In p (pids tr) -> NoDup (map fst (rows_of p tr))) -> (0 < ndim)%nat ->
+  exists rows, py_imsd tr mpp fps (Z.of_nat maxlag) LMsd (Some (seq 0 ndim))
+               = Ret (widef_of_irows (imsd_columns maxlag tr, rows)) /\
+    map i_lag rows = seq 1 (ens_lags maxlag tr) /\
+    forall r, In r rows ->
+      i_lagt r = nq (i_lag r) / fps /\
+      i_vals r = map (fun p => msd_def mpp ndim (rows_of p tr) (i_lag r)) (imsd_columns maxlag tr).
+Proof. exact gen_imsd_ok. Qed.
+Print Assumptions C17_gen_imsd.
+
+(* C17_emsd_weighted for the generated emsd(detail=True) *)
+Theorem C17_gen_emsd_weighted : forall tr mpp fps maxlag ndim,
+  tr <> [] -> (forall p, In p (pids tr) -> NoDup (map fst (rows_of p tr))) -> (0 < ndim)%nat ->
+  exists f rows, py_emsd tr mpp fps (Z.of_nat maxlag) true (Some (seq 0 ndim)) = Ret (EmsdFrame f) /\
+    emsd_frame_agrees f rows /\
+    map e_lag rows = seq 1 (ens_lags maxlag tr) /\
+    forall r, In r rows ->
+      e_lagt r = nq (e_lag r) / fps /\
+      e_msd r = emsd_def mpp ndim tr (e_lag r) /\
+      e_N r = qsum (map fst (contributing mpp ndim tr (e_lag r))).
+Proof. exact gen_emsd_ok. Qed.
+Print Assumptions C17_gen_emsd_weighted.
+
+(* non-vacuity: the generated msd on the example trajectory returns the table of the model's rows, with the
+   values of C17_ex_values in its msd column, and the generated emsd / imsd run on the F11 ensemble *)
+Example C17_gen_ex_values :
+  match py_msd ex_traj 1 1 100 true (Some [0; 1]%nat) with
+  | Ret f => (f_index f, option_map (map (option_map this)) (getcol (f_cols f) LMsd))
+  | Raise _ => ([], None)
+  end = ([1; 2; 3; 4; 5]%Z, Some [None; Some (1 # 1); Some (18 # 1); None; Some (25 # 1)]%Q).
+Proof. vm_compute. reflexivity. Qed.
+
+Example C17_gen_ex_emsd_F11 :
+  cmp_gen_emsd (py_emsd ex_ens 1 1 100 true (Some [0]%nat)) (emsd ex_ens 1 1 100 1) = 0%N /\
+  cmp_gen_imsd (py_imsd ex_ens 1 1 100 LMsd (Some [0]%nat)) (imsd ex_ens 1 1 100 1) = 0%N.
+Proof. vm_compute. split; reflexivity. Qed.
